@@ -14,6 +14,7 @@ import (
 type LeaderOutage struct {
 	mu   sync.Mutex
 	on   map[string]map[int32]bool // topic -> partition -> leaderless
+	hide map[string]int            // topic -> number of further responses in which it is shown as UNKNOWN_TOPIC_OR_PARTITION
 	vers map[int][]int16           // conn -> versions of metadata requests in flight
 	N    int                       // number of responses rewritten
 }
@@ -28,6 +29,17 @@ func (o *LeaderOutage) Set(topic string, partition int32, leaderless bool) {
 		o.on[topic] = map[int32]bool{}
 	}
 	o.on[topic][partition] = leaderless
+}
+
+// HideTopic makes the next n Metadata responses that list the topic show it as UNKNOWN_TOPIC_OR_PARTITION without
+// partitions: the client learns the topic's partitions only afterwards.
+func (o *LeaderOutage) HideTopic(topic string, n int) {
+	o.mu.Lock()
+	defer o.mu.Unlock()
+	if o.hide == nil {
+		o.hide = map[string]int{}
+	}
+	o.hide[topic] = n
 }
 
 func (o *LeaderOutage) Clear() {
@@ -68,7 +80,7 @@ func (o *LeaderOutage) Install(n *Net) {
 		}
 		v := q[0]
 		o.vers[conn] = q[1:]
-		if len(o.on) == 0 || len(frame) < 4 {
+		if (len(o.on) == 0 && len(o.hide) == 0) || len(frame) < 4 {
 			return frame
 		}
 		resp := kmsg.NewPtrMetadataResponse()
@@ -84,6 +96,13 @@ func (o *LeaderOutage) Install(n *Net) {
 		for i := range resp.Topics {
 			t := &resp.Topics[i]
 			if t.Topic == nil {
+				continue
+			}
+			if o.hide[*t.Topic] > 0 {
+				o.hide[*t.Topic]--
+				t.ErrorCode = 3 // UNKNOWN_TOPIC_OR_PARTITION
+				t.Partitions = nil
+				changed = true
 				continue
 			}
 			ps := o.on[*t.Topic]
